@@ -2,6 +2,7 @@ package rules
 
 import (
 	"fmt"
+	"go/types"
 
 	"golang.org/x/tools/go/ssa"
 
@@ -84,6 +85,50 @@ func runC15(c *core.Ctx) {
 			c.Fail("C15/cache-cleared-on-epoch-change", "EpochStartPrepare", ep.Pos(), "setNodesPerShards is no longer called")
 		}
 	}
+	// S3 registry round trip: a node restarted from the saved registry must hold the same validators
+	// (public key, selection chances, index) as its peers: every field of SerializableValidator is
+	// read by every function that rebuilds validators from it and flows into NewValidator
+	if sv := c.P.Named("sharding", "SerializableValidator"); sv != nil {
+		st := sv.Underlying().(*types.Struct)
+		readers := 0
+		for _, rf := range c.P.FuncsOfPkg("sharding") {
+			var ctor []ssa.Instruction
+			for _, in := range callsMatching(rf, "sharding", "", "NewValidator") {
+				cc := core.CallOf(in)
+				fromSV := false
+				for _, a := range cc.Args {
+					if b, f := core.FieldLoad(a); f != nil && namedElem(b.Type()) == sv {
+						fromSV = true
+					}
+				}
+				if fromSV {
+					ctor = append(ctor, in)
+				}
+			}
+			for i, in := range ctor {
+				readers++
+				c.Analysed(core.QualName(rf))
+				cc := core.CallOf(in)
+				for k := 0; k < st.NumFields(); k++ {
+					f := st.Field(k)
+					used := false
+					for _, a := range cc.Args {
+						for v := range core.BackwardReach(a) {
+							if _, lf := core.FieldLoad(v); lf == f {
+								used = true
+							}
+						}
+					}
+					c.Check(used, "C15/registry-round-trip", fmt.Sprintf("%s#%d/SerializableValidator.%s", fname(rf), i, f.Name()), in.Pos(),
+						"the saved "+f.Name()+" is restored into the validator", "a validator rebuilt from the saved registry does not take its "+f.Name()+" from the registry entry: a node restarted in-epoch computes with different "+f.Name()+" than its peers")
+				}
+			}
+		}
+		if readers == 0 {
+			c.Undecided("C15/registry-round-trip", "SerializableValidator", 0, "no function rebuilding validators from SerializableValidator found")
+		}
+	}
+	c.Floor("C15/registry-round-trip", 3)
 	c.Floor("C15/cache-key-complete", 5)
 	c.Floor("C15/cache-coherent", 2)
 	c.Floor("C15/cache-cleared-on-epoch-change", 1)
